@@ -55,7 +55,7 @@ func ZzC12() {
 	readers := make([]*zzReader, R)
 	for r := range readers {
 		rd := &zzReader{target: chain[3+zz.Choice("target", 3)].H}
-		rctx, cancel := context.WithCancel(ctx)
+		rctx, cancel := context.WithCancel(zzTagged(ctx, "r"+zzItoa(r)))
 		rd.cancel = cancel
 		readers[r] = rd
 		go func() {
